@@ -149,7 +149,18 @@ func c15r1(rc *core.RC) {
 			}
 		}
 		for _, c := range condChainNodes(fd, call) {
-			if op, v, ok := lenCmp(c.cond); ok && c.pos {
+			if op, v, ok := lenCmp(c.cond); ok {
+				if !c.pos {
+					// the branch is taken when the comparison fails
+					switch op {
+					case token.GTR:
+						op = token.LEQ
+					case token.GEQ:
+						op = token.LSS
+					default:
+						continue
+					}
+				}
 				switch op {
 				case token.LEQ:
 					if best < 0 || v < best {
@@ -201,10 +212,11 @@ func condChainNodes(fd *ast.FuncDecl, n ast.Node) []condNode {
 		if !ok || i+1 >= len(path) {
 			continue
 		}
+		cond, flip := stripNot(ifs.Cond)
 		if path[i+1] == ast.Node(ifs.Body) {
-			out = append(out, condNode{ifs.Cond, true})
+			out = append(out, condNode{cond, !flip})
 		} else if ifs.Else != nil && path[i+1] == ifs.Else {
-			out = append(out, condNode{ifs.Cond, false})
+			out = append(out, condNode{cond, flip})
 		}
 	}
 	return out
@@ -297,7 +309,7 @@ func c15r2(rc *core.RC) {
 				if rows[o] {
 					usesRow = true
 				}
-				if o.Name() == "cursor" || o.Name() == "start" {
+				if isCursorObj(o) {
 					usesCursor = true
 				}
 			}
@@ -952,6 +964,27 @@ func c15r12(rc *core.RC) {
 	comparesDepth := func(fd *ast.FuncDecl) bool {
 		info := p.Info(fd)
 		found := false
+		// locals that hold a depth: assigned from an expression that reads a depth field (by role, not by name)
+		depthLocal := map[types.Object]bool{}
+		ast.Inspect(fd.Body, func(m ast.Node) bool {
+			as, ok := m.(*ast.AssignStmt)
+			if !ok || len(as.Lhs) != len(as.Rhs) {
+				return true
+			}
+			for i, l := range as.Lhs {
+				reads := false
+				ast.Inspect(as.Rhs[i], func(k ast.Node) bool {
+					if e, ok := k.(ast.Expr); ok && isDepth(info, e) {
+						reads = true
+					}
+					return true
+				})
+				if o := core.ObjOf(info, l); o != nil && reads {
+					depthLocal[o] = true
+				}
+			}
+			return true
+		})
 		ast.Inspect(fd.Body, func(m ast.Node) bool {
 			be, ok := m.(*ast.BinaryExpr)
 			if !ok {
@@ -959,8 +992,8 @@ func c15r12(rc *core.RC) {
 			}
 			switch be.Op {
 			case token.LSS, token.GTR, token.LEQ, token.GEQ, token.EQL, token.NEQ:
-				l := isDepth(info, be.X) || core.ObjOf(info, be.X) != nil && strings.Contains(strings.ToLower(core.ObjOf(info, be.X).Name()), "depth")
-				r := isDepth(info, be.Y) || core.ObjOf(info, be.Y) != nil && strings.Contains(strings.ToLower(core.ObjOf(info, be.Y).Name()), "depth")
+				l := isDepth(info, be.X) || depthLocal[core.ObjOf(info, be.X)]
+				r := isDepth(info, be.Y) || depthLocal[core.ObjOf(info, be.Y)]
 				if (isDepth(info, be.X) || isDepth(info, be.Y)) && l && r {
 					found = true
 				}
@@ -1039,13 +1072,39 @@ func c15r12(rc *core.RC) {
 		info := p.Info(fd)
 		rc.Touch(p.FuncName(fd))
 		deeper, assigns := false, false
+		// the variables a depth field is assigned from (`x.depth = d`, `depth: d` in a literal)
+		depthSources := map[types.Object]bool{}
+		ast.Inspect(fd.Body, func(m ast.Node) bool {
+			switch x := m.(type) {
+			case *ast.AssignStmt:
+				if len(x.Lhs) == len(x.Rhs) {
+					for i, l := range x.Lhs {
+						if isDepth(info, l) {
+							if o := core.ObjOf(info, x.Rhs[i]); o != nil {
+								depthSources[o] = true
+							}
+						}
+					}
+				}
+			case *ast.KeyValueExpr:
+				if id, ok := x.Key.(*ast.Ident); ok {
+					if f, ok := info.Uses[id].(*types.Var); ok && f.IsField() && f.Name() == "depth" {
+						if o := core.ObjOf(info, x.Value); o != nil {
+							depthSources[o] = true
+						}
+					}
+				}
+			}
+			return true
+		})
 		ast.Inspect(fd.Body, func(m ast.Node) bool {
 			switch x := m.(type) {
 			case *ast.CallExpr:
 				for _, a := range x.Args {
 					if be, isBin := core.Unparen(a).(*ast.BinaryExpr); isBin && be.Op == token.ADD {
 						if v, isConst := core.ConstInt(info, be.Y); isConst && v == 1 {
-							if o := core.ObjOf(info, be.X); o != nil && strings.Contains(strings.ToLower(o.Name()), "depth") {
+							// the recursive call passes its own parameter plus one, and that parameter is what the depth field is given
+							if o := core.ObjOf(info, be.X); o != nil && depthSources[o] {
 								deeper = true
 							}
 						}
